@@ -716,8 +716,7 @@ class ParameterSet(
         return bounds
 
     def __contains__(self, param_name):
-        """Implements the ``param_name in self`` expression. It calls the
-        :meth:`has_param` method of this class.
+        """Implements the ``param_name in self`` expression.
 
         Parameters
         ----------
@@ -730,7 +729,10 @@ class ParameterSet(
             Returns ``True`` if the given parameter is part of this ParameterSet
             instance, ``False`` otherwise.
         """
-        return self.has_param(param_name)
+        return (
+            (param_name in self._floating_param_name_list) or
+            (param_name in self._fixed_param_name_list)
+        )
 
     def __iter__(self):
         """Returns an iterator over the Parameter instances of this ParameterSet
